@@ -271,6 +271,17 @@ class Impl:
         self.app.add_before_response(self.hook)
         for op in ops:
             self.outcomes.append(self.register(op))
+        # a route that was registered and removed again leaves no trace:
+        # its path is dispatched like any path that never had a route
+        ghost = self.handler(9999)
+        try:
+            self.app.set_route("/gone", ghost, 3)
+            self.app.pop_route("/gone", 1)
+            self.app.pop_route("/gone", 2)
+            self.app.set_route("/gone2/<x:word>", ghost, 4)
+            self.app.pop_route("/gone2/<x:word>", 4)
+        except (KeyError, RuntimeError, re.error, IndexError) as err:
+            self.outcomes.append(Exn("ghost:" + type(err).__name__))
 
     def hook(self, req):
         self.state["before"] = (req.uri_rule, req.uri_handler)
@@ -639,6 +650,7 @@ def probes_for(rng, samples, quick, fs_paths, exact=()):
     paths.extend(rng.sample(HOSTILE_PATHS, 4 if quick else 10))
     paths.extend(fs_paths)
     paths.append("/debug-info")
+    paths.extend(["/gone", "/gone2/a"])
     seen, out = set(), []
     for path in paths:
         if path in seen:
